@@ -51,6 +51,10 @@ CHECKS = {
          "Seeded search: SetDT8ColourValueTc / SetDT8TcLimit / QueryDT8ColourValue stepped against IEC 62386-209 Tc unit models with stale DTR contents; quick walks through all 65536 mirek values once (edges over-weighted), all four limit selectors, all query selectors against stored values incl. MASK, silence or framing error on either answer byte, short/int/group/broadcast destinations with bystanders, out-of-range and wrong-type arguments; oracle: the unit's Tc / limit registers after the sequence, Activate applied, bystanders untouched, query result exact or None, bad arguments rejected before the first command.",
          "Trusted base: Tc unit model of DESIGN.md appendix A.1 (sim/busim.py).",
          "deterministic co-simulation of sequence and DT8 unit models with answer faults", "4"),
+ "C13": ("busim", "exploration",
+         "Seeded search: query_input_value (resolutions 1-32, sensor changing between byte reads), SetEventFilters / QueryEventFilters (library 8-bit enums, harness-defined 16- and 24-bit enums, plain ints, stale DTR contents), SetEventSchemes (all schemes and invalid ones) and DeviceInstanceTypeMapper.autodiscover (0-64 devices, arbitrary status bits, 0-32 instances, two devices on one address) stepped against IEC 62386-103 control-device models with silence or a framing error at a seeded command index; oracle: reassembled value equals the latched value, instance filter/scheme equals the request and the returned read-back, scan map equals the enabled instances of healthy devices, scan bracketed in quiescent mode, faults lead to skip / None / DALISequenceError only.",
+         "Trusted base: control-device model of DESIGN.md appendix A.3 (sim/busim.py).",
+         "deterministic co-simulation of sequence and control-device models with answer faults and a concurrently changing sensor", "4"),
 }
 
 PLANNED = {}
